@@ -38,13 +38,14 @@ ASSUMPTIONS = [
     "LMDB backend over /verif/shim; SQL = SQLite",
 ]
 MIN_NONTRIVIAL = {"quick": 3000, "thorough": 30000}
-REQUIRED_COUNTERS = ["pairs.definitely_open_must", "pairs.definitely_closed", "pairs.nonmatching", "agreement.compared", "cases_with_output_validator"]
+REQUIRED_COUNTERS = ["pairs.definitely_open_must", "pairs.definitely_closed", "pairs.nonmatching", "agreement.compared", "cases_with_output_validator", "crowd_pairs"]
 SHARD_TIMEOUT = {"quick": 600, "thorough": 3200}
 
 
 def plan(tier, seed):
     n, cases = (8, 40) if tier == "quick" else (32, 120)
-    return [{"backend": b, "case_seed": seed * 7919 + i, "cases": cases} for b in ("sql", "lmdb") for i in range(n)]
+    return [{"backend": b, "case_seed": seed * 7919 + i, "cases": cases} for b in ("sql", "lmdb") for i in range(n)] + \
+           [{"backend": b, "case_seed": seed * 7919 + j, "crowd": 900, "cases": 0} for b in ("sql", "lmdb") for j in range(1 if tier == "quick" else 4)]
 
 
 class Cmd:
@@ -381,6 +382,9 @@ async def run_case(backend, seed, counters, coverage):
 def run_shard(spec):
     counters, coverage = {}, {"backends": {spec["backend"]: 1}}
     viols, nontrivial = [], []
+    if spec.get("crowd"):
+        v, nt = R.run(run_crowd, spec["backend"], counters, spec["case_seed"], spec["crowd"])
+        return {"evaluations": counters.get("crowd_pairs", 0), "nontrivial": sorted(set(nt)), "counters": counters, "coverage": coverage, "violations": v[:2], "samples": [], "inconclusive": []}
     for i in range(spec["cases"]):
         v, nt = R.run(run_case, spec["backend"], spec["case_seed"] * 1000 + i, counters, coverage)
         viols.extend(v)
@@ -397,6 +401,47 @@ def run_shard(spec):
     return {"evaluations": spec["cases"], "nontrivial": sorted(set(nontrivial)), "counters": counters, "coverage": coverage,
             "violations": out, "samples": [{"backend": spec["backend"], "seed": spec["case_seed"] * 1000, "accepted_events": counters.get("accepted_events"),
                                             "generations": counters.get("generations")}], "inconclusive": []}
+
+
+async def run_crowd(backend, counters, seed, n=900):
+    """hundreds of simultaneous connections from ONE remote address (a reverse proxy, a NAT): each holds the same
+    subscription id; every one of them gets every matching event exactly once, also after half of them left"""
+    rig = R.Rig(backend=backend, config={"analysis_delay": 0})
+    await rig.start()
+    viols, nontrivial = [], []
+    try:
+        conns = [rig.connect("crowd%d" % i, addr="10.9.9.9") for i in range(n)]
+        for c in conns:
+            c.feed(["REQ", "feed", {"kinds": [1], "since": gen.T0}])
+        for c in conns:
+            await c.processed(timeout=120)
+        await rig.quiesce(timeout=180)
+        pub = rig.connect("crowd-pub", addr="10.9.9.8")
+        key = ref.key_from_seed("c05-crowd")
+        rounds = []
+        for rnd in range(2):
+            ev = ref.make_event(key, kind=1, created_at=gen.T0 + 100 + rnd, content="crowd %d %d" % (seed, rnd))
+            n0 = rig.rec.n
+            await pub.cmd(["EVENT", ev])
+            await rig.quiesce(timeout=180)
+            alive = [c for c in conns if not c.exited]
+            counts = [sum(1 for _, f in c.parsed_frames(n0) if isinstance(f, list) and len(f) > 2 and f[0] == "EVENT" and f[1] == "feed" and f[2].get("id") == ev["id"]) for c in alive]
+            counters["crowd_pairs"] = counters.get("crowd_pairs", 0) + len(alive)
+            missed, twice = sum(1 for x in counts if x == 0), sum(1 for x in counts if x > 1)
+            nontrivial.append(h([backend, "crowd", n, rnd]))
+            if missed or twice:
+                viols.append({"key": "%s/crowd-one-address/%s/%s" % (backend, "missed" if missed else "duplicate", "first-event" if rnd == 0 else "after-half-left"),
+                              "msg": "[%s] %d connections from one address hold subscription 'feed': event %d was missed by %d and pushed more than once to %d of them"
+                                     % (backend, len(alive), rnd + 1, missed, twice), "replay": {"backend": backend, "crowd": n, "seed": seed}})
+                break
+            for c in conns[::2]:
+                c.disconnect()
+            for c in conns[::2]:
+                await c.processed(timeout=120)
+            await rig.quiesce(timeout=180)
+    finally:
+        await rig.close()
+    return viols, nontrivial
 
 
 async def run_directed(backend, d, counters):
@@ -442,6 +487,10 @@ async def run_directed(backend, d, counters):
 
 
 def replay(rp, spec):
+    if "crowd" in rp:
+        counters = {}
+        v, nt = R.run(run_crowd, rp["backend"], counters, rp["seed"], rp["crowd"])
+        return {"evaluations": 1, "nontrivial": nt, "counters": counters, "violations": v, "samples": [], "inconclusive": []}
     if "directed" in rp:
         counters = {}
         v = R.run(run_directed, rp["backend"], rp["directed"], counters)
